@@ -53,8 +53,14 @@ impl TypeSpace {
 
         // As with `"type": [T, "null"]`, a required name belongs to the
         // wrapper; the inner type needs a name of its own.
+        // The same goes for a suggested name when the wrapper is going to
+        // be named by its title (a titled root schema).
+        let titled = metadata
+            .as_ref()
+            .map_or(false, |metadata| metadata.title.is_some());
         let type_name = match type_name {
             Name::Required(name) => Name::Suggested(format!("{}Inner", name)),
+            Name::Suggested(name) if titled => Name::Suggested(format!("{}Inner", name)),
             name => name,
         };
 
